@@ -1108,16 +1108,24 @@ func Retract(vm *VM, t Term, k Cont, env *Env) *Promise {
 		return Error(permissionError(operationModify, permissionTypeStaticProcedure, pi.Term(), env))
 	}
 
-	deleted := 0
 	ks := make([]func(context.Context) *Promise, len(u.clauses))
 	for i, c := range u.clauses {
-		i := i
+		i, c := i, c
 		raw := rulify(c.raw, env)
 		ks[i] = func(_ context.Context) *Promise {
 			return Unify(vm, t, raw, func(env *Env) *Promise {
-				j := i - deleted
+				// The database may have been updated since the call. Look for the very clause in the current database.
+				j := -1
+				for n := range u.clauses {
+					if id(u.clauses[n].raw) == id(c.raw) {
+						j = n
+						break
+					}
+				}
+				if j < 0 { // Already removed.
+					return Bool(false)
+				}
 				u.clauses, u.clauses[len(u.clauses)-1] = append(u.clauses[:j], u.clauses[j+1:]...), clause{}
-				deleted++
 				return k(env)
 			}, env)
 		}
